@@ -6,11 +6,12 @@ namespace Never.Vm
 open Never Never.Num
 
 /-- started with `sp = s`, a completed run of `f` leaves fp/pp/stack size alone and ends with `sp = s + d`,
-or with `sp = s` and a raised exception -/
+or with a raised exception (`running = VM_EXCEPTION`; the handler entered next resets `sp` from `fp`, see C03),
+or stopped in `VM_ERROR` (a failed `assert`: the machine executes nothing further) -/
 def EffAt {α} (s d : Int) (f : M α) : Prop :=
   ∀ vm a vm', vm.sp = s → f.run vm = .ok (a, vm') →
     vm'.fp = vm.fp ∧ vm'.pp = vm.pp ∧ vm'.stackSize = vm.stackSize ∧
-    (vm'.sp = s + d ∨ (vm'.sp = s ∧ vm'.running = 2))
+    (vm'.sp = s + d ∨ vm'.running = 2 ∨ vm'.running = 3)
 
 theorem EffAt.keeps_bind {α β} {s d : Int} {f : M α} {g : α → M β} (hf : KeepsSp f) (hg : ∀ a, EffAt s d (g a)) :
     EffAt s d (f >>= g) := by
@@ -19,19 +20,6 @@ theorem EffAt.keeps_bind {α β} {s d : Int} {f : M α} {g : α → M β} (hf : 
   obtain ⟨a1, a2, a3, a4⟩ := hf vm a vm' h1
   obtain ⟨b1, b2, b3, b4⟩ := hg a vm' b vm'' (by omega) h2
   exact ⟨by omega, by omega, by omega, b4⟩
-
-/-- once `sp` has its final value, the rest only has to keep it -/
-theorem EffAt.done_bind {α β} {s d : Int} {f : M α} {g : α → M β} (hf : EffAt s d f) (hg : ∀ a, KeepsSp (g a))
-    (hr : ∀ a vm b vm', (g a).run vm = .ok (b, vm') → vm.running = 2 → vm'.running = 2) :
-    EffAt s d (f >>= g) := by
-  intro vm b vm'' hs h
-  obtain ⟨a, vm', h1, h2⟩ := (run_bind_ok f g vm vm'' b).mp h
-  obtain ⟨a1, a2, a3, a4⟩ := hf vm a vm' hs h1
-  obtain ⟨b1, b2, b3, b4⟩ := hg a vm' b vm'' h2
-  refine ⟨by omega, by omega, by omega, ?_⟩
-  rcases a4 with a4 | ⟨a4, a5⟩
-  · left; omega
-  · right; exact ⟨by omega, hr a vm' b vm'' h2 a5⟩
 
 theorem EffAt.getSp_bind {β} {s d : Int} {g : Int → M β} (hg : EffAt s d (g s)) : EffAt s d (getSp >>= g) := by
   intro vm b vm'' hs h
@@ -49,7 +37,7 @@ theorem EffAt.raise (s d : Int) (e : Nat) : EffAt s d (raise e) := by
   intro vm a vm' hs h
   simp [Vm.raise, modify, modifyGet, MonadStateOf.modifyGet, StateT.modifyGet, StateT.run, pure, Except.pure] at h
   obtain ⟨_, rfl⟩ := h
-  exact ⟨rfl, rfl, rfl, Or.inr ⟨hs, rfl⟩⟩
+  exact ⟨rfl, rfl, rfl, Or.inr (Or.inl rfl)⟩
 
 theorem EffAt.crash {α} (s d : Int) (w : String) : EffAt s d (crash w : M α) := by
   intro vm a vm' hs h; exact absurd h (by simp [Vm.crash, throw, throwThe, MonadExceptOf.throw, StateT.run, StateT.lift, liftM, monadLift, MonadLift.monadLift, Except.bind, bind])
@@ -180,19 +168,120 @@ theorem EffAt.setSp_bind {β} (s d v : Int) (hv : v = s + d) {g : PUnit → M β
   obtain ⟨b1, b2, b3, b4⟩ := hg a vm' b vm'' h2
   exact ⟨by omega, by omega, by omega, Or.inl (by omega)⟩
 
+macro_rules
+  | `(tactic| keeps) => `(tactic| with_reducible apply_assumption (exfalso := false))
+
+theorem keeps_okVal (r : NRes) : KeepsSp (okVal r) := by unfold okVal; keeps
+theorem keeps_setArrElem (a i v : Nat) : KeepsSp (setArrElem a i v) := by
+  unfold setArrElem; refine KeepsSp.bind (keeps_getArrObj a) (fun p => ?_); keeps
+theorem keeps_rangePair (r d : Nat) : KeepsSp (rangePair r d) := by unfold rangePair; keeps
+
+macro_rules
+  | `(tactic| keeps) => `(tactic|
+      first | with_reducible exact keeps_okVal _ | with_reducible exact keeps_setArrElem _ _ _ | with_reducible exact keeps_rangePair _ _)
+
+theorem keeps_allocEach (o : Obj) (n : Nat) : KeepsSp (allocEach o n) := by
+  induction n with
+  | zero => unfold allocEach; keeps
+  | succ n ih => unfold allocEach; keeps
+
+theorem keeps_mapElems (ty : NTy) (f : NVal → M NVal) (hf : ∀ v, KeepsSp (f v)) (es : List Nat) : KeepsSp (mapElems ty f es) := by
+  induction es with
+  | nil => unfold mapElems; keeps
+  | cons e es ih => unfold mapElems; keeps
+
+theorem keeps_zipArith (ty : NTy) (bop : BinOp) (xs ys : List Nat) : KeepsSp (zipArith ty bop xs ys) := by
+  induction xs generalizing ys with
+  | nil => unfold zipArith; keeps
+  | cons x xs ih =>
+    cases ys with
+    | nil => unfold zipArith; keeps
+    | cons y ys => unfold zipArith; have := ih ys; keeps
+
+theorem keeps_dotSum (ty : NTy) (es1 es2 : List Nat) (i j inner cols k n : Nat) (acc : NVal) :
+    KeepsSp (dotSum ty es1 es2 i j inner cols k n acc) := by
+  induction n generalizing k acc with
+  | zero => unfold dotSum; keeps
+  | succ n ih => unfold dotSum; keeps
+
+theorem keeps_matCols (ty : NTy) (es1 es2 : List Nat) (mres i inner cols j m : Nat) :
+    KeepsSp (matCols ty es1 es2 mres i inner cols j m) := by
+  induction m generalizing j with
+  | zero => unfold matCols; keeps
+  | succ m ih => unfold matCols; have := keeps_dotSum ty es1 es2 i j inner cols 0 inner (zeroOf ty); keeps
+
+theorem keeps_matRows (ty : NTy) (es1 es2 : List Nat) (mres inner cols i n : Nat) :
+    KeepsSp (matRows ty es1 es2 mres inner cols i n) := by
+  induction n generalizing i with
+  | zero => unfold matRows; keeps
+  | succ n ih => unfold matRows; have := keeps_matCols ty es1 es2 mres i inner cols 0 cols; keeps
+
+theorem keeps_composeRanges (r1 r2 res d n : Nat) : KeepsSp (composeRanges r1 r2 res d n) := by
+  induction n generalizing d with
+  | zero => unfold composeRanges; keeps
+  | succ n ih => unfold composeRanges; keeps
+
+theorem keeps_rangePairs (r d n : Nat) : KeepsSp (rangePairs r d n) := by
+  induction n generalizing d with
+  | zero => unfold rangePairs; keeps
+  | succ n ih => unfold rangePairs; keeps
+
+theorem keeps_unpackLoop (sp : Int) (fs : List Nat) (size i : Nat) : KeepsSp (unpackLoop sp fs size i) := by
+  induction i with
+  | zero => unfold unpackLoop; keeps
+  | succ i ih => unfold unpackLoop; keeps
+
+theorem keeps_feCheck (orc : Oracle) : KeepsSp (feCheck orc) := by unfold feCheck; keeps
+
+macro_rules
+  | `(tactic| keeps) => `(tactic|
+      first
+      | with_reducible exact keeps_allocEach _ _ | with_reducible exact keeps_zipArith _ _ _ _
+      | with_reducible exact keeps_dotSum _ _ _ _ _ _ _ _ _ _ | with_reducible exact keeps_matCols _ _ _ _ _ _ _ _ _
+      | with_reducible exact keeps_matRows _ _ _ _ _ _ _ _ | with_reducible exact keeps_composeRanges _ _ _ _ _
+      | with_reducible exact keeps_rangePairs _ _ _ | with_reducible exact keeps_unpackLoop _ _ _ _ | with_reducible exact keeps_feCheck _
+      | (with_reducible refine keeps_mapElems _ _ (fun _ => ?hf) _; (case hf => keeps)))
+
+theorem EffAt.congr_d {α} {s d d' : Int} {f : M α} (h : EffAt s d' f) (hd : d = d') : EffAt s d f := by subst hd; exact h
+
+theorem EffAt.pushAddr' (s d : Int) (a : Nat) (hd : d = 1) : EffAt s d (Vm.pushAddr a) := by subst hd; exact EffAt.pushAddr s a
+theorem EffAt.of_keeps' {α} {s d : Int} {f : M α} (hf : KeepsSp f) (hd : d = 0) : EffAt s d f := by subst hd; exact EffAt.of_keeps hf
+
+/-- `sp` is set to `v`; the rest is judged from there -/
+theorem EffAt.setSp_then {β} (s d v : Int) {g : PUnit → M β} (hg : ∀ a, EffAt v (s + d - v) (g a)) :
+    EffAt s d (Vm.setSp v >>= g) := by
+  intro vm b vm'' hs h
+  obtain ⟨a, vm', h1, h2⟩ := (run_bind_ok _ g vm vm'' b).mp h
+  obtain ⟨t1, t2, t3, t4, _⟩ := keeps_setSp_run _ _ _ _ h1
+  obtain ⟨b1, b2, b3, b4⟩ := hg a vm' b vm'' t1 h2
+  refine ⟨by omega, by omega, by omega, ?_⟩
+  rcases b4 with b4 | b4
+  · left; omega
+  · right; exact b4
+
 /-- automation for `EffAt` goals -/
 syntax "eff" : tactic
+theorem EffAt.stop (s d : Int) (f : Vm → Vm) (hf : ∀ vm, (f vm).fp = vm.fp ∧ (f vm).pp = vm.pp ∧ (f vm).stackSize = vm.stackSize ∧ (f vm).running = 3) :
+    EffAt s d (modify f : M PUnit) := by
+  intro v x v' hs h
+  simp [modify, modifyGet, MonadStateOf.modifyGet, StateT.modifyGet, StateT.run, pure, Except.pure] at h
+  obtain ⟨_, rfl⟩ := h
+  obtain ⟨a, b, c, e⟩ := hf v
+  exact ⟨a, b, c, Or.inr (Or.inr e)⟩
+
 macro_rules
   | `(tactic| eff) => `(tactic|
       first
       | with_reducible exact EffAt.setSp _ _ _ (by omega)
+      | with_reducible exact EffAt.stop _ _ _ (fun _ => ⟨rfl, rfl, rfl, rfl⟩)
       | with_reducible exact EffAt.raise _ _ _
       | with_reducible exact EffAt.crash _ _ _
       | with_reducible exact EffAt.exit _ _ _ _
-      | with_reducible exact EffAt.pushAddr _ _
-      | with_reducible exact EffAt.pure_zero _ _
-      | (with_reducible refine EffAt.of_keeps ?hf; (case hf => keeps))
+      | with_reducible exact EffAt.pushAddr' _ _ _ (by omega)
+      | (with_reducible refine EffAt.of_keeps' ?hf ?hd; (case hd => omega); (case hf => keeps))
+      | (with_reducible refine EffAt.getSp_bind ?hg; (case hg => eff))
       | (with_reducible refine EffAt.setSp_bind _ _ _ ?hv (fun _ => ?hg); (case hv => omega); (case hg => keeps))
+      | (with_reducible refine EffAt.setSp_then _ _ _ (fun _ => ?hg); (case hg => eff))
       | (with_reducible refine EffAt.keeps_bind ?hf (fun _ => ?hg); (case hf => keeps); (case hg => eff))
       | (split <;> eff))
 
